@@ -93,7 +93,7 @@ def encode(c):
                           fp_match=L([T(S(f), B(m)) for f, m in zip(filters, row)]),
                           fp_recv=L([S(x) for x in (recv[n] if n < len(recv) else [])])))
         return Rec(fc_clients=L([Rec(fcl_cid=S(cl["cid"]), fcl_connected=B(not cl.get("gone")),
-                                     fcl_subs=L([T(S(s["f"]), Z(s["q"])) for s in cl.get("subs") or []]),
+                                     fcl_subs=L([T(S(s["f"]), Z(s["q"])) for s in (cl.get("subs") or []) + (cl.get("subs2") or [])]),
                                      fcl_unsubs=L([S(f) for f in cl.get("unsubs") or []]), fcl_left=B(cl.get("left", False)))
                                  for cl in i.get("clients") or []]),
                    fc_pubs=L(ps), fc_bad=B(bad))
